@@ -20,6 +20,7 @@ class _Prog(nn.Module):
         super().__init__()
         self._prog = prog
         self._ops = prog['ops']
+        self._record = None
         dim = 1 if prog['family'] == '1d' else 2
         Conv = nn.Conv1d if dim == 1 else nn.Conv2d
         for op in self._ops:
@@ -35,11 +36,16 @@ class _Prog(nn.Module):
                     pad = 0
                 elif pad == 'none':
                     pad = 0
-                self.add_module(op['name'], Conv(op['cin'], op['cout'], op['k'], stride=op['s'],
-                                                 padding=pad, dilation=op['d'], groups=groups,
-                                                 bias=op['bias']))
+                layer = Conv(op['cin'], op['cout'], op['k'], stride=op['s'], padding=pad,
+                             dilation=op['d'], groups=groups, bias=op['bias'])
+                if op.get('pit'):
+                    layer = _user_pit_layer(layer, op)
+                self.add_module(op['name'], layer)
             elif k == 'lin':
-                self.add_module(op['name'], nn.Linear(op['fin'], op['fout'], bias=op['bias']))
+                layer = nn.Linear(op['fin'], op['fout'], bias=op['bias'])
+                if op.get('pit'):
+                    layer = _user_pit_layer(layer, op)
+                self.add_module(op['name'], layer)
             elif k == 'bn':
                 BN = nn.BatchNorm2d if op['bdim'] == 2 else nn.BatchNorm1d
                 self.add_module(op['name'], BN(op['c'], affine=op.get('affine', True)))
@@ -105,7 +111,25 @@ class _Prog(nn.Module):
             else:
                 raise ValueError(k)
             vals[op['out']] = y
+        if self._record is not None:
+            self._record.update(vals)
         return vals[self._prog['out']]
+
+
+def _user_pit_layer(layer, op):
+    """A searchable layer placed by the user (autoconvert_layers=False)."""
+    from plinio.methods.pit.nn import PITConv1d, PITConv2d, PITLinear
+    from plinio.methods.pit.nn.features_masker import PITFeaturesMasker, PITFrozenFeaturesMasker
+    from plinio.methods.pit.nn.timestep_masker import PITTimestepMasker
+    from plinio.methods.pit.nn.dilation_masker import PITDilationMasker
+    width = layer.out_features if isinstance(layer, nn.Linear) else layer.out_channels
+    fm = PITFrozenFeaturesMasker(width) if op.get('pit') == 'frozen' else PITFeaturesMasker(width)
+    if isinstance(layer, nn.Conv1d):
+        K = layer.kernel_size[0]
+        return PITConv1d(layer, fm, PITTimestepMasker(K), PITDilationMasker(K))
+    if isinstance(layer, nn.Conv2d):
+        return PITConv2d(layer, fm)
+    return PITLinear(layer, fm)
 
 
 class Prog1(_Prog):
@@ -118,12 +142,17 @@ class Prog2(_Prog):
         return self._run({'x0': x0, 'x1': x1})
 
 
+class Prog3(_Prog):
+    def forward(self, x0, x1, x2):
+        return self._run({'x0': x0, 'x1': x1, 'x2': x2})
+
+
 def build(prog, seed=0, randomize_bn=True):
     """Instantiate the program with seeded random weights (and non-trivial BN statistics)."""
     g = torch.Generator().manual_seed(int(seed) % (2 ** 31))
     st = torch.random.get_rng_state()
     torch.manual_seed(int(seed) % (2 ** 31))
-    m = Prog1(prog) if len(prog['inputs']) == 1 else Prog2(prog)
+    m = {1: Prog1, 2: Prog2, 3: Prog3}[len(prog['inputs'])](prog)
     with torch.no_grad():
         for mod in m.modules():
             if isinstance(mod, (nn.BatchNorm1d, nn.BatchNorm2d)) and randomize_bn:
@@ -685,3 +714,108 @@ def reuse_program(rng, family='1d', same_size=True):
     return {'family': family, 'inputs': inputs, 'ops': ops, 'out': 'o', 'excluded': [],
             'features': ['reuse', 'reuse-same' if same_size else 'reuse-diffsize', 'tcat'],
             'traits': []}
+
+
+def tensor_shapes(prog):
+    """shape (without batch) of every tensor of the program, from an eager run"""
+    m = build(prog, 0)
+    rec = {}
+    m._record = rec
+    with torch.no_grad():
+        m(*example_inputs(prog, 1, 0))
+    m._record = None
+    return {k: tuple(v.shape[1:]) for k, v in rec.items()}
+
+
+def cat_origin_program(rng, family, kinds, consumer='conv'):
+    """cat(dim=1) of 2..3 tensors of the given origins ('search' / 'fixed' / 'input'), consumed by a
+    searchable conv (or, through a spatial flatten, by a linear layer)."""
+    n_in = max(1, sum(1 for k in kinds if k == 'input'))
+    c = [rng.randint(1, 4) for _ in range(n_in)]
+    if family == '1d':
+        sp = [rng.randint(5, 9)]
+    else:
+        sp = [rng.randint(4, 6), rng.randint(4, 6)]
+    inputs = [[ci] + sp for ci in c]
+    ops, excluded, srcs = [], [], []
+    next_in = 0
+    for i, kind in enumerate(kinds):
+        if kind == 'input':
+            srcs.append(f'x{next_in}')
+            next_in += 1
+            continue
+        name = f'{"fx" if kind == "fixed" else "cv"}{i}'
+        op = {'op': 'conv', 'name': name, 'src': 'x0', 'out': f'b{i}', 'cin': c[0],
+              'cout': rng.randint(2, 6), 'k': rng.choice([1, 3]), 'd': 1, 's': 1,
+              'bias': rng.random() < 0.6, 'pad': 'same', 'dw': False}
+        if kind == 'fixed':
+            op['excluded'] = True
+            excluded.append(name)
+        ops.append(op)
+        if rng.random() < 0.5:
+            ops.append({'op': 'act', 'kind': 'relu_f', 'src': f'b{i}', 'out': f'r{i}'})
+            srcs.append(f'r{i}')
+        else:
+            srcs.append(f'b{i}')
+    widths = []
+    for s_ in srcs:
+        if s_.startswith('x'):
+            widths.append(c[int(s_[1:])])
+        else:
+            i = int(s_[1:])
+            widths.append(next(o['cout'] for o in ops if o.get('out') == f'b{i}'))
+    tot = sum(widths)
+    ops.append({'op': 'cat', 'srcs': srcs, 'dim': 1, 'out': 'cc'})
+    if consumer == 'conv':
+        ops.append({'op': 'conv', 'name': 'cons', 'src': 'cc', 'out': 'd', 'cin': tot,
+                    'cout': rng.randint(2, 5), 'k': 3 if family == '2d' else 2, 'd': 1, 's': 1,
+                    'bias': True, 'pad': 'same', 'dw': False})
+        ops.append({'op': 'act', 'kind': 'relu_mod', 'name': 'act', 'src': 'd', 'out': 'e'})
+        ops.append({'op': 'pool', 'kind': 'aavg', 'k': 0, 'name': 'gap', 'src': 'e', 'out': 'g'})
+        ops.append({'op': 'flat', 'kind': rng.choice(['mod', 'meth', 'fn']), 'name': 'fl',
+                    'src': 'g', 'out': 'f'})
+        fin = ops[-4]['cout']
+    else:
+        ops.append({'op': 'flat', 'kind': rng.choice(['mod', 'meth', 'fn']), 'name': 'fl',
+                    'src': 'cc', 'out': 'f'})
+        fin = tot
+        for x in sp:
+            fin *= x
+    ops.append({'op': 'lin', 'name': 'fc0', 'src': 'f', 'out': 'h', 'fin': fin,
+                'fout': rng.randint(2, 6), 'bias': True})
+    ops.append({'op': 'act', 'kind': 'relu_t', 'src': 'h', 'out': 'h2'})
+    ops.append({'op': 'lin', 'name': 'fc1', 'src': 'h2', 'out': 'o', 'fin': ops[-2]['fout'],
+                'fout': 2, 'bias': True})
+    return {'family': family, 'inputs': inputs, 'ops': ops, 'out': 'o', 'excluded': excluded,
+            'features': ['cat', 'cat:' + '-'.join(sorted(kinds)), 'cat-consumer:' + consumer],
+            'traits': []}
+
+
+def manual_program(rng, family):
+    """autoconvert_layers=False: the user placed the searchable layers (a fixed stem, two
+    user-placed searchable layers, a user-placed classifier with a frozen masker)."""
+    c0 = rng.randint(1, 3)
+    if family == '1d':
+        inputs = [[c0, rng.randint(6, 10)]]
+        kw = {'k': rng.choice([2, 3, 5]), 'pad': 'causal'}
+    else:
+        inputs = [[c0, rng.randint(5, 7), rng.randint(5, 7)]]
+        kw = {'k': 3, 'pad': 'same'}
+    c1, c2, c3 = rng.randint(2, 5), rng.randint(2, 6), rng.randint(2, 6)
+    base = {'op': 'conv', 'd': 1, 's': 1, 'bias': True, 'dw': False}
+    ops = [dict(base, name='stem', src='x0', out='a', cin=c0, cout=c1, **kw),
+           {'op': 'act', 'kind': 'relu_f', 'src': 'a', 'out': 'a2'},
+           dict(base, name='p1', src='a2', out='b', cin=c1, cout=c2, pit=True, **kw),
+           {'op': 'bn', 'name': 'bn1', 'src': 'b', 'out': 'b1', 'c': c2,
+            'bdim': 1 if family == '1d' else 2, 'affine': True},
+           {'op': 'act', 'kind': 'relu_mod', 'name': 'act1', 'src': 'b1', 'out': 'b2'},
+           dict(base, name='p2', src='b2', out='c', cin=c2, cout=c3, pit=True, **kw),
+           {'op': 'act', 'kind': 'relu_t', 'src': 'c', 'out': 'c2'},
+           {'op': 'flat', 'kind': 'meth', 'src': 'c2', 'out': 'f'}]
+    n = c3
+    for x in inputs[0][1:]:
+        n *= x
+    ops.append({'op': 'lin', 'name': 'head', 'src': 'f', 'out': 'o', 'fin': n, 'fout': 3,
+                'bias': True, 'pit': 'frozen'})
+    return {'family': family, 'inputs': inputs, 'ops': ops, 'out': 'o', 'excluded': [],
+            'manual': True, 'features': ['manual', 'flat', 'flat-spatial', 'bn'], 'traits': []}
